@@ -74,7 +74,7 @@ func DamageJSON(t *tape.Tape, data []byte) (out []byte, desc []string, kinds []s
 			}
 		}
 		a := slots[t.Intn("jd.a", len(slots))]
-		op := t.Weighted("jd.op", 5, 3, 4, 2, 1, 1, 3, 3, 2)
+		op := t.Weighted("jd.op", 5, 3, 4, 2, 1, 1, 3, 3, 2, 3)
 		switch op {
 		case 0: // misdirected write: a := copy of b
 			b := slots[t.Intn("jd.b", len(slots))]
@@ -237,6 +237,29 @@ func DamageJSON(t *tape.Tape, data []byte) (out []byte, desc []string, kinds []s
 					kinds = append(kinds, "json-case-variant-section")
 				}
 			}
+		case 9: // a stale, damaged copy of an object member written under the SAME key, before the genuine one
+			// (a JSON document may repeat a key; validators look at the last occurrence, Go's decoder
+			// decodes the later one into what the earlier one produced)
+			var objs []jsonSlot
+			for _, sl := range slots {
+				if _, inMap := sl.parent.(map[string]interface{}); !inMap {
+					continue
+				}
+				switch get(sl).(type) {
+				case map[string]interface{}, []interface{}:
+					objs = append(objs, sl)
+				}
+			}
+			if len(objs) > 0 {
+				sl := objs[t.Intn("jd.dup.slot", len(objs))]
+				var cp interface{}
+				raw, _ := json.Marshal(get(sl))
+				_ = json.Unmarshal(raw, &cp)
+				how := staleDamage(t, get(sl), &cp)
+				sl.parent.(map[string]interface{})[dupKeyPrefix+sl.key] = cp
+				desc = append(desc, fmt.Sprintf("a stale copy of %s stored under the same key in front of it (%s)", sl.path, how))
+				kinds = append(kinds, "json-duplicate-key")
+			}
 		case 7: // misdirected member: a member of one object also written into another object
 			var objs []jsonSlot
 			for _, sl := range slots {
@@ -303,6 +326,7 @@ func DamageJSON(t *tape.Tape, data []byte) (out []byte, desc []string, kinds []s
 	if err != nil {
 		return data, nil, nil
 	}
+	b = bytes.ReplaceAll(b, []byte(`"\u0001dup:`), []byte(`"`))
 	if len(tailMembers) > 0 {
 		if i := bytes.LastIndexByte(b, '}'); i > 0 {
 			nb := append([]byte{}, bytes.TrimRight(b[:i], " \n")...)
@@ -314,6 +338,84 @@ func DamageJSON(t *tape.Tape, data []byte) (out []byte, desc []string, kinds []s
 		}
 	}
 	return b, desc, kinds
+}
+
+// dupKeyPrefix marks a member that is written under the key of its sibling: it sorts in front of
+// every ordinary key and is stripped from the marshalled text.
+const dupKeyPrefix = "\x01dup:"
+
+// staleDamage makes a stale copy and the genuine value differ the way that matters when both
+// are stored under one key: a member the genuine (later, validated) value no longer has is still
+// there in the stale (earlier) copy, holding a value no validator has looked at.
+func staleDamage(t *tape.Tape, genuine interface{}, stale *interface{}) string {
+	type ref struct {
+		path string
+		g, s map[string]interface{}
+		k    string
+	}
+	var refs []ref
+	var walk func(g, s interface{}, path string)
+	walk = func(g, s interface{}, path string) {
+		switch gy := g.(type) {
+		case map[string]interface{}:
+			sy, _ := s.(map[string]interface{})
+			ks := make([]string, 0, len(gy))
+			for k := range gy {
+				ks = append(ks, k)
+			}
+			sortStrings(ks)
+			for _, k := range ks {
+				refs = append(refs, ref{path: path + "." + k, g: gy, s: sy, k: k})
+				walk(gy[k], sy[k], path+"."+k)
+			}
+		case []interface{}:
+			sy, _ := s.([]interface{})
+			for i := range gy {
+				if i < len(sy) {
+					walk(gy[i], sy[i], fmt.Sprintf("%s[%d]", path, i))
+				}
+			}
+		}
+	}
+	walk(genuine, *stale, "")
+	if len(refs) == 0 {
+		*stale = nil
+		return "the copy is null"
+	}
+	r := refs[t.Intn("jd.dup.inner", len(refs))]
+	delete(r.g, r.k)
+	how := "null"
+	switch v := r.s[r.k].(type) {
+	case []interface{}:
+		if len(v) > 0 && t.Bool("jd.dup.elem") {
+			v[t.Intn("jd.dup.elem.idx", len(v))] = nil
+			how = "an array with a null element"
+		} else {
+			r.s[r.k] = nil
+		}
+	case map[string]interface{}:
+		ks := make([]string, 0, len(v))
+		for k := range v {
+			ks = append(ks, k)
+		}
+		sortStrings(ks)
+		if len(ks) > 0 && t.Bool("jd.dup.member") {
+			v[ks[t.Intn("jd.dup.member.idx", len(ks))]] = nil
+			how = "an object with a null member"
+		} else {
+			r.s[r.k] = nil
+		}
+	case string:
+		if t.Bool("jd.dup.str") {
+			r.s[r.k] = ""
+			how = "an empty string"
+		} else {
+			r.s[r.k] = nil
+		}
+	default:
+		r.s[r.k] = nil
+	}
+	return fmt.Sprintf("the genuine value has lost %s, the copy still has it as %s", r.path, how)
 }
 
 func sortStrings(a []string) {
